@@ -2,7 +2,7 @@
 """C08 - the matrix-based ("easy") model API writes the given LP/QP and un-permutes
 solutions (specs/nl/EasyModel.tla)."""
 import concurrent.futures as cf
-import json, os, re, shutil, sys, time
+import json, os, random, re, shutil, sys, time
 sys.path.insert(0, os.path.join(os.path.dirname(os.path.abspath(__file__)), "..", "tools"))
 from vlib import *
 import targets
@@ -34,7 +34,23 @@ def chunks(lst, n):
     return [lst[i:i + n] for i in range(0, len(lst), n)]
 
 
-def run_cases(exe, cases, d):
+def pick_prevs(cases):
+    """Every second case is run on NLSolver / PreprocessData objects that have handled a
+    different generated model before (object reuse; the expected records do not change)."""
+    rnd = random.Random(seed())
+    prevs = {}
+    byn = {}
+    for k in cases:
+        byn.setdefault(k["n"], []).append(k)
+    for i, c in enumerate(cases):
+        if i % 2 == 0:
+            continue
+        pool = byn[c["n"]] if i % 4 == 1 else cases
+        prevs[c["id"]] = pool[rnd.randrange(len(pool))]
+    return prevs
+
+
+def run_cases(exe, cases, d, prevs):
     """Runs the harness on chunks of the case list in parallel; returns the trace lines in case order."""
     work = os.path.join(BUILD, "c08work")
     shutil.rmtree(work, ignore_errors=True)
@@ -47,6 +63,8 @@ def run_cases(exe, cases, d):
         cf_, tr = os.path.join(w, "cases.ndjson"), os.path.join(w, "trace.ndjson")
         with open(cf_, "w") as f:
             for c in parts[i]:
+                if c["id"] in prevs:    # history: the objects handled another model first
+                    f.write('{"prev":' + json.dumps(prevs[c["id"]]) + "}\n")
                 f.write(json.dumps(c) + "\n")
         rc, so, se = run_harness(exe, [cf_, tr, w, "30"], timeout=900)
         return sanitize_trace(tr, rc, se)
@@ -77,7 +95,8 @@ def run(tier):
     exe = targets.get("h_easy")
     d = outdir(PID)
     t1 = time.time()
-    lines = run_cases(exe, cases, d)
+    prevs = pick_prevs(cases)
+    lines = run_cases(exe, cases, d, prevs)
     log("[C08] h_easy: %d records, %.1fs" % (len(lines), time.time() - t1))
     trace = os.path.join(d, "trace-%s.ndjson" % tier)
     with open(trace, "w") as f:
@@ -92,9 +111,12 @@ def run(tier):
     v = Verdict(PID)
     bad = printed_json(res, "BAD")
     keys = []
+    permbad = set(b["id"] for b in bad if "perm" in b["wrong"])
     for b in bad:
         e = lines[b["line"] - 1]
         for w in sorted(b["wrong"]):
+            if w == "noperm" and b["id"] in permbad:
+                continue        # consequence of the rejected permutation record of the same case
             if w in ("case", "event", "noperm") or b["id"] < 0:
                 raise Broken("trace/generator inconsistency: %s at line %d: %s" % (w, b["line"], json.dumps(e)[:300]))
             key = "%s@%s" % (w, b["tag"])
@@ -127,7 +149,7 @@ def run(tier):
         "traces_validated_against_impl": len(cases),
         "samples": [sample(cases[0]), sample(cases[len(cases) // 2]), sample(cases[-1]),
                     [json.dumps(e)[:400] for e in lines[1:7]]],
-        "cases": len(cases), "cases_fully_accepted": len(cases) - len(badids),
+        "cases": len(cases), "cases_on_reused_objects": len(prevs), "cases_fully_accepted": len(cases) - len(badids),
         "cases_by_n": {str(n): sum(1 for c in cases if c["n"] == n) for n in (1, 2, 3, 4)},
         "records_by_kind": kinds, "rejected_fields": wrongs,
         "exhaustive": tier == "thorough",
@@ -135,7 +157,7 @@ def run(tier):
                        "subset, single off-diagonal i<j / i>j, both triangles, duplicates, outer-only / inner-only variables, full, "
                        "triangular) with linear part given / not given / zero, offset, both declared formats, text/binary, comments, "
                        "row matrices, warm starts, suffixes of all kinds, names rotated; each is written by the real NLModel/NLSolver, "
-                       "read back by the real mp::ReadNLFile, a .sol is returned through ReadSolution() and the one-call Solve(); "
+                       "read back by the real mp::ReadNLFile (every second case on NLSolver/PreprocessData objects that handled a different generated model before), a .sol is returned through ReadSolution() and the one-call Solve(); "
                        "TLC decides legality of the NL image under the reported permutation and equality of the objective as a "
                        "function on {-1,0,1,2}^n" + ("" if tier == "thorough" else " (quick: n=4 sampled 1/17)"),
         "design_check": {"module": "MCEasyModel", "distinct_states": mc.distinct},
